@@ -428,7 +428,23 @@ fn check_tape_c(tape: &[u8], gates: &Gates, stats: &mut Stats, counting: bool, s
             Some(p) => p.clone(),
             None => continue,
         };
-        let text = spell_unit(&fu, gates);
+        // canonical spelling, or (half of the cases) the wild one: comments and non-ASCII text before
+        // the marker on its line, CRLF, re-cased identifiers - the label must still cover the marker
+        let wild = choice.flag();
+        let text = if wild {
+            let mut p = Printer::new(gates, Tape::empty());
+            p.library(&fu.lib);
+            let lex = p.finish();
+            gates.take_hits();
+            let lt_bytes: Vec<u8> = (0..200).map(|_| choice.byte()).collect();
+            let (lay, _) = layout(&lex, &crate::props::c08::opts_for(gates), &mut Tape::new(&lt_bytes));
+            lay.text
+        } else {
+            spell_unit(&fu, gates)
+        };
+        if counting {
+            stats.class(if wild { "c.spelling.wild" } else { "c.spelling.canonical" });
+        }
         let r = check_labels(&text, &planted, gates);
         if counting {
             stats.case(true, hash_str(&text));
